@@ -337,12 +337,21 @@ def run(tier):
     for sig, why in twins_rejected:
         if len(sig) == 1:
             raise common.MachineryError(f"benign twin of {sig} is rejected: {why}")
+    # a rule that holds in the function body but fails in every nested statement block is one failure class, not one per block
+    nested_blocks = {f"sctx:{c}" for c in STMT_CTX if c not in ("body", "after_if")}
+    failing_ctx = {}
+    for (sig, bad, rng, good), k in zip(cases, verdicts):
+        if k and k != "twin-rejected" and len(sig) == 2 and sig[1].startswith("sctx:"):
+            failing_ctx.setdefault((sig[0], k), set()).add(sig[1])
+    every_nested = {rk for rk, ctxs in failing_ctx.items() if nested_blocks <= ctxs}
     by_key = {}
     for (sig, bad, rng, good), k, i in zip(cases, verdicts, range(len(cases))):
         if not k or k == "twin-rejected":
             continue
         if l1.get(sig[0]) == k:
             key = f"{sig[0]}|{k}"
+        elif (sig[0], k) in every_nested and len(sig) >= 2 and any(x in nested_blocks or x.replace("sctx2:", "sctx:") in nested_blocks for x in sig[1:]):
+            key = f"{sig[0]}@every-nested-block|{k}"
         else:
             key = "@".join(sig[:2]) + f"|{k}"
         by_key.setdefault(key, []).append({"sig": list(sig), "kind": k, "src": bad, "range": list(rng), "construct": bad.encode()[rng[0] : rng[1]].decode(), "errors": res[f"b{i}"].get("errs")})
